@@ -1052,3 +1052,5 @@ def run(chk):
     from ..report import RuleAlias
     chk.guard("R16.12", "key-pushes", c04.check_key_pushes, RuleAlias(chk, {"R04.6": "R16.12"}, "what a key / key-hash push "
               "in a script commits to"), F)
+    from . import wholedesc
+    chk.guard("R16.13", "named-constructors", wholedesc.check_named_constructors, chk, F, "R16.13")
